@@ -419,6 +419,21 @@ class Interp:
                     cur = ("elem", G.ptr[cur[1]][1], None)
                 else:
                     cur = ("unknown", False)
+            elif "sub" in e:
+                # slice pattern `[a, rest @ .., z]`: MIR only reaches this projection after matching on the length
+                d = G.ptr.get(cur[1]) if cur[0] == "slicewhole" else None
+                if d and d[0] == "slice" and is_int(d[3]) and (d[2] is None or is_int(d[2])):
+                    frm, to = e["sub"]
+                    off = d[2] if d[2] is not None else const_int(0)
+                    noff = self.addc(st, off, frm)
+                    if e.get("from_end"):
+                        st.set_iv(d[3], max(st.get_iv(d[3])[0], frm + to), st.get_iv(d[3])[1])
+                        nl = self.addc(st, d[3], -(frm + to))
+                    else:
+                        nl = const_int(max(to - frm, 0))
+                    cur = ("slicewhole", new_ptr(("slice", d[1], noff, nl)))
+                else:
+                    cur = ("unknown", False)
             else:
                 cur = ("unknown", False)
             first = False
@@ -760,6 +775,22 @@ class Interp:
                 return new_ptr(("static", v["static"]))
             if "zst" in v:
                 return None
+            if "undecoded" in v or "deep" in v or "nolayout" in v or "ptr" in v:
+                return None
+            if "enum_variant" in v:
+                vi = v["enum_variant"]
+                d = {}
+                if vi is not None and ty is not None:
+                    d[("discr",)] = const_int(self.discr_value(ty, vi))
+                    for i, fv in enumerate(v.get("fields", [])):
+                        fty = None
+                        a = self.decoded(fv, fty, st)
+                        if isinstance(a, Fields):
+                            for pth, x in a.d.items():
+                                d[(("v", vi), ("f", i)) + pth] = x
+                        elif a is not None:
+                            d[(("v", vi), ("f", i))] = a
+                return Fields(d) if d else None
             # struct
             d = {}
             # struct field order = declaration order = field index order
